@@ -1,6 +1,8 @@
 import Driver.Loop
 import Driver.DatasetProto
 import Midgard.Model.H5Dataset
+import Midgard.Model.H5Meta
+import Midgard.Model.H5Bits
 
 /-!
 Driver for C10.
@@ -85,6 +87,15 @@ partial def parseMetas : Nat → List String → Option (List Meta × List Strin
     pure (x :: xs, r')
 end
 
+def parseMetaDict : Nat → List String → Option (MetaDict × List String)
+  | 0, ts => some ([], ts)
+  | n + 1, k :: ts => do
+    let key ← decodeHex? k
+    let (v, r) ← parseMeta ts
+    let (rest, r') ← parseMetaDict n r
+    pure ((key, v) :: rest, r')
+  | _, [] => none
+
 def showAtom : Atom → String
   | .int i => s!"i{i}"
   | .flt q => "f" ++ showRat q
@@ -106,7 +117,10 @@ partial def showMeta : Meta → String
 partial def grpTags (depth : Nat) : Grp → List String
   | .mk a payload subs =>
     match payload with
-    | none => "w:collection" :: subs.flatMap (fun e => grpTags depth e.2)
+    | none =>
+      if a.sameAs.isSome then
+        [if (a.sameAs.getD []).length > 1 then "w:same_as->nested-field" else "w:same_as->top-field"]
+      else "w:collection" :: subs.flatMap (fun e => grpTags depth e.2)
     | some ob =>
       let own :=
         match attrName ob.kind, a.ref with
@@ -168,7 +182,25 @@ def readMembersT (rd : Option Kind → Grp → RSt → T → M (Field × RSt × 
 
 def readFieldT (file : File) (fa : Nat) : Nat → Option Kind → Grp → RSt → T → M (Field × RSt × T)
   | 0, _, _, _, _ => .error .fuel
-  | _ + 1, some k, .mk a p subs, s, tr =>
+  | _ + 1, some k, .mk a p subs, s0, tr0 =>
+    let al : M (RSt × T) := match a.sameAs with
+      | none => .ok (s0, tr0)
+      | some name =>
+        match s0.memo.lookup name with
+        | some o => .ok (s0.set a.fieldname o, tr0 ++ ["f:same_as-hit(that-field-read-before)"])
+        | none =>
+          match lookupGrp file.groups name with
+          | none => .error .attribute
+          | some g =>
+            let r : M (Nat × RSt × T) := match s0.memo.lookup g.attrs.fieldname with
+              | some o => .ok (o, s0, tr0)
+              | none => readArrT file fa g s0 (tr0 ++ ["f:same_as-miss(that-field-read-now)"])
+            match r with
+            | .error e => .error e
+            | .ok (o, s', tr') => .ok ((s'.set name o).set a.fieldname o, tr')
+    match al with
+    | .error e => .error e
+    | .ok (s, tr) =>
     let r : M (Nat × RSt × T) := match s.memo.lookup a.fieldname with
       | some o => .ok (o, s, tr ++ ["f:leaf-memo-hit(read-before-through-a-reference)"])
       | none => readArrT file fa (.mk a p subs) s (tr ++ ["f:leaf-read"])
@@ -216,7 +248,74 @@ def info (h : Heap) (x : DS) (lvl : Nat) : String :=
       | .error e => ["r:ERR:" ++ showErr e]
     s!"W:{w}|" ++ ",".intercalate (dedup (omitted ++ wt ++ rt ++ (if same then [] else ["twin-mismatch"])))
 
+/-! ### bit patterns: the numeric arrays of the world are replaced by their IEEE-754 words before the round trip -/
+
+/-- the objects in the order a walk over the fields meets them: an array, then its `other`, then its `ref_pos` -/
+def visitObj (h : Heap) : Nat → Nat → List Nat → List Nat
+  | 0, _, seen => seen
+  | fuel + 1, o, seen =>
+    if seen.contains o then seen else
+    let seen := seen ++ [o]
+    match h[o]? with
+    | none => seen
+    | some ob =>
+      let seen := match ob.other with
+        | none => seen
+        | some a => visitObj h fuel a seen
+      match ob.refPos with
+      | none => seen
+      | some a => visitObj h fuel a seen
+
+partial def visitFields (h : Heap) : List Field → List Nat → List Nat
+  | [], seen => seen
+  | .leaf _ _ o _ _ _ :: fs, seen => visitFields h fs (visitObj h (h.length + 1) o seen)
+  | .coll _ _ _ sub :: fs, seen => visitFields h fs (visitFields h sub seen)
+
+def parseWords? (s : String) : Option (List (List UInt64)) :=
+  if s == "[]" then some []
+  else (s.splitOn ";").mapM (fun r => (r.splitOn ",").mapM (fun t => t.toNat?.map UInt64.ofNat))
+
+/-- one token per object of the walk: `-` (left as it is: text, booleans) or the rows as decimal words -/
+def patchBits (h : Heap) : List Nat → List String → Option Heap
+  | [], [] => some h
+  | o :: os, t :: ts =>
+    if t == "-" then patchBits h os ts else
+    match parseWords? t, h[o]? with
+    | some ws, some ob => patchBits (h.set o { ob with rows := bitsRows ws }) os ts
+    | _, _ => none
+  | _, _ => none
+
+def showBits (h : Heap) (d : DS) : String :=
+  "|".intercalate ((visitFields h d.fields []).map (fun o =>
+    match h[o]? with
+    | none => "!"
+    | some ob =>
+      match (rowsBits ob.rows).mapM id with
+      | none => "-"
+      | some ws => if ws.isEmpty then "[]" else ";".intercalate (ws.map (fun r => ",".intercalate (r.map (fun w => toString w.toNat))))))
+
 def handle : List String → Option String
+  | "c10" :: "rtbits" :: units :: rest => do
+    -- `<ops> | B <token per object of the walk> | write d lvl`
+    let us ← parseUnits? units
+    let (segs1, last) ← splitLast (splitOps rest)
+    let (ops, bseg) ← splitLast segs1
+    let w ← build { units := us } ops
+    match last, bseg with
+    | ["write", d, lvl], "B" :: toks =>
+      let d ← d.toNat?
+      let lvl ← lvl.toNat?
+      match w.getDs d with
+      | .error _ => none
+      | .ok x =>
+        let h ← patchBits w.heap (visitFields w.heap x.fields []) toks
+        match writeDS h x lvl with
+        | .error e => pure ("ERR:w:" ++ showErr e)
+        | .ok file =>
+          match readBack h x file with
+          | .error e => pure ("ERR:r:" ++ showErr e)
+          | .ok (h', x') => pure ("ok:" ++ showBits h' x')
+    | _, _ => none
   | "c10" :: "codec" :: rest => do
     let (m, r) ← parseMeta rest
     if !r.isEmpty then none else
@@ -225,6 +324,43 @@ def handle : List String → Option String
     | some a => match decode a with
       | none => pure "undecodable"
       | some m' => pure (showMeta m')
+  | "c10" :: "rtm" :: units :: rest => do
+    -- the whole dataset: `<ops> | M n <hexkey> <meta> … | V n <key meta> <value meta> … | write d lvl`
+    let us ← parseUnits? units
+    let (segs1, last) ← splitLast (splitOps rest)
+    let (segs2, vseg) ← splitLast segs1
+    let (ops, mseg) ← splitLast segs2
+    let w ← build { units := us } ops
+    let info ← match mseg with
+      | "M" :: n :: r => do let n ← n.toNat?; let (m, r') ← parseMetaDict n r; if r'.isEmpty then pure m else none
+      | _ => none
+    let vars ← match vseg with
+      | "V" :: n :: r => do
+        let n ← n.toNat?
+        let (xs, r') ← parseMetas (2 * n) r
+        let rec pairs : List Meta → List (Meta × Meta)
+          | k :: v :: t => (k, v) :: pairs t
+          | _ => []
+        if r'.isEmpty then pure (pairs xs) else none
+      | _ => none
+    match last with
+    | ["write", d, lvl] =>
+      let d ← d.toNat?
+      let lvl ← lvl.toNat?
+      match w.getDs d with
+      | .error _ => none
+      | .ok x =>
+        let dm : DSM := { ds := x, info := info, vars := vars }
+        match writeDSM w.heap dm lvl with
+        | .error e => pure ("ERR:w:" ++ showErr e)
+        | .ok none => pure "ERR:w:unsavable"
+        | .ok (some fm) =>
+          match readBackM w.heap dm fm with
+          | .error e => pure ("ERR:r:" ++ showErr e)
+          | .ok (h', r) =>
+            pure ("ok:" ++ renderDS h' r.ds ++ "#M:" ++ ";".intercalate (r.info.map (fun (k, v) => encodeHex k ++ "=" ++ showMeta v))
+              ++ "#V:" ++ showMeta (.dict r.vars))
+    | _ => none
   | "c10" :: mode :: units :: rest => do
     let us ← parseUnits? units
     let (ops, last) ← splitLast (splitOps rest)
